@@ -57,6 +57,18 @@ Theorem change_makes_save_due :
 Proof. exact wait_sees_due. Qed.
 Print Assumptions change_makes_save_due.
 
+(* ... and a dastard started after such a save restores the latest value of every persistent topic among
+   the keys RunRPCServer / PrepareRun restore (source configurations, status = record lengths, writing =
+   base path, tesmapfile, trigger). *)
+Theorem restart_restores_saved :
+  forall (cfg : config) (d : fs entry) (h : list event) (now : value) (l : list (string * value)),
+    Forall wf_event h -> consistent h -> case_distinct h ->
+    snd (step (fst (step (fst (run (init_sys cfg d) h)) (SaveTick now []))) Restart) = Restored l ->
+    forall t o, persistent_topic t = true -> restorable_topic t = true -> last_obj t h = Some o ->
+                slookup (to_lower t) l = Some o.
+Proof. exact restart_restores. Qed.
+Print Assumptions restart_restores_saved.
+
 (* 3. For EVERY directory with a main file, EVERY content to be written, EVERY way of splitting the write
       into chunks, EVERY pattern of failing operations and EVERY prefix of the operation sequence of
       saveState (g ranges over the directory before the save and after each completed operation):
